@@ -20,6 +20,7 @@ import (
 	"time"
 
 	"github.com/insomniacslk/dhcp/dhcpv6"
+	"verif/seq/fw"
 )
 
 type editSite struct {
@@ -50,7 +51,9 @@ func collectEdits(root any) []editSite {
 	bytesEdits := func(v reflect.Value, path string) {
 		// v is a settable slice of uint8 with at least one element
 		n := v.Len()
-		add(path+":in-place", func() { e := v.Index(n - 1); e.SetUint(e.Uint() ^ 1) })
+		if b, ok := v.Convert(reflect.TypeOf([]byte(nil))).Interface().([]byte); !ok || !fw.StdShared(b) {
+			add(path+":in-place", func() { e := v.Index(n - 1); e.SetUint(e.Uint() ^ 1) })
+		}
 		add(path+":replaced", func() {
 			nv := reflect.MakeSlice(v.Type(), n, n)
 			reflect.Copy(nv, v)
@@ -74,7 +77,7 @@ func collectEdits(root any) []editSite {
 			if v.Type() == tIPNetPtr {
 				// a prefix: change one bit inside the prefix (host bits of a short prefix are outside the value domain)
 				n := v.Interface().(*net.IPNet)
-				if ones, bits := n.Mask.Size(); bits > 0 && ones >= 8 && len(n.IP) > 0 {
+				if ones, bits := n.Mask.Size(); bits > 0 && ones >= 8 && len(n.IP) > 0 && !fw.StdShared(n.IP) {
 					add(path+".IP:in-place", func() { n.IP[0] ^= 1 })
 				}
 				return
@@ -96,7 +99,7 @@ func collectEdits(root any) []editSite {
 			t := v.Type()
 			if t == tIPNetPtr.Elem() {
 				if n, ok := v.Addr().Interface().(*net.IPNet); ok && v.CanAddr() {
-					if ones, bits := n.Mask.Size(); bits > 0 && ones >= 8 && len(n.IP) > 0 {
+					if ones, bits := n.Mask.Size(); bits > 0 && ones >= 8 && len(n.IP) > 0 && !fw.StdShared(n.IP) {
 						add(path+".IP:in-place", func() { n.IP[0] ^= 1 })
 					}
 				}
